@@ -54,3 +54,10 @@ CASES += [
     {"name": "directory index kept in a local table", "kind": "twin", "edits": [
         (SAV, "        except FileExistsError:\n            self.hashes = load_parcel(hfile)", "        except FileExistsError:\n            self.hashes = load_parcel(os.path.join(dirname,\"_hashes_.qrp\"))", 1)]},
 ]
+
+CASES += [
+    {"name": "text export of an evolution reads the raw storage", "kind": "mutant", "rule": "C18-H", "edits": [
+        ("quantarhei/qm/propagators/dmevolution.py", "               out[i,j+1] = numpy.real(self.data[i,j,j])", "               out[i,j+1] = numpy.real(self._data[i,j,j])", 1)]},
+    {"name": "text export of an evolution reads the matrix of a time step once through the property", "kind": "twin", "edits": [
+        ("quantarhei/qm/propagators/dmevolution.py", "               out[i,j+1] = numpy.real(self.data[i,j,j])", "               rho = self.data[i,:,:]\n               out[i,j+1] = numpy.real(rho[j,j])", 1)]},
+]
